@@ -460,6 +460,29 @@ class Run:
                               "behaviours": nh, "wall_s": round(time.time() - t0, 2)})
         return res
 
+    def rp_rec_leg(self, name, mc_spec, mc_cfg, domain, ops_file, verdict, workers=8, timeout=3000, spec="TV_Asm", cfg="TV_Asm.cfg"):
+        """RP leg for record-style domains: the behaviours TLC enumerates (and checks) are given to the real
+        crate by `lc3v replay <domain>`, one record each, and validated like any other record leg."""
+        t0 = time.time()
+        ops = os.path.join(SPEC, ops_file)
+        r = self.mc_leg(name + "_mc", mc_spec, mc_cfg, env={"OPS": ops}, workers=workers, timeout=timeout)
+        hist = os.path.join(self.work, name + ".hist")
+        nh = 0
+        with open(hist, "w") as f:
+            for ln in r.prints:
+                m = re.match(r'^<<"HIST", <<(.*)>>>>\s*$', ln)
+                if m:
+                    f.write("[" + m.group(1) + "]\n")
+                    nh += 1
+        if nh == 0:
+            raise ToolError("leg %s: TLC printed no behaviour" % name)
+        out = os.path.join(self.work, name + ".ndjson")
+        lc3v(["replay", domain, "hist=" + hist, "ops=" + ops], out, self.seed, self.tier)
+        res = self.rec_leg(name, ["replay", domain], spec=spec, cfg=cfg, verdict=verdict, workers=workers, timeout=timeout, path=out)
+        self.legs[-1].update({"kind": "RP (TLC-enumerated behaviours given to the implementation, then TV)",
+                              "behaviours": nh, "wall_s": round(time.time() - t0, 2)})
+        return res
+
     def mc_leg(self, name, spec, cfg, env=None, workers=8, timeout=1800, **kw):
         """MC leg: model-check the specification itself."""
         t0 = time.time()
@@ -860,6 +883,8 @@ ASM_CONF = ["conf-accept", "conf-err", "conf-blocks", "conf-sym"]
 def c01(run):
     run.mc_leg("mc_asm", "MC_Asm", "MC_Asm5.cfg" if run.tier == "thorough" else "MC_Asm.cfg", workers=16, timeout=3000)
     run.rec_leg("asm", ["asm", "faults=25"], verdict=["panic", "written", "image", "labels", "extflag", "wf-rejected", "unknown-event"])
+    run.rp_rec_leg("rp_asm", "MC_AsmRP", "MC_AsmRP4.cfg" if run.tier == "thorough" else "MC_AsmRP3.cfg", "asm", "MC_Asm_ops.ndjson",
+                   verdict=["panic", "written", "image", "labels", "extflag", "wf-rejected", "unknown-event"], workers=16)
     return run.finish(
         rule="generated programs (every opcode and alias, operands at and inside field limits, label operands forward and "
              "backward incl. offsets exactly at the 9- and 11-bit limits, .fill/.stringz/.blkw, 1-4 blocks placed from x0000 "
@@ -878,6 +903,8 @@ def c01(run):
 def c02(run):
     run.mc_leg("mc_asm", "MC_Asm", "MC_Asm5.cfg" if run.tier == "thorough" else "MC_Asm.cfg", workers=16, timeout=3000)
     run.rec_leg("asm", ["asm", "faults=70"], verdict=["panic", "accept", "kind", "unknown-event"])
+    run.rp_rec_leg("rp_asm", "MC_AsmRP", "MC_AsmRP4.cfg" if run.tier == "thorough" else "MC_AsmRP3.cfg", "asm", "MC_Asm_ops.ndjson",
+                   verdict=["panic", "accept", "kind", "unknown-event"], workers=16)
     return run.finish(
         rule="generated programs with zero to three injected faults (missing/extra/nested .orig/.end, duplicate labels in "
              "another case, undefined labels, offsets one past the field limit, blocks ending at xFE00+1 / x10000 / x10001, "
